@@ -46,8 +46,7 @@ def lagrange (xr : α) (others : List α) : List α :=
   others.foldl (fun acc xm => mulLin (-xm / (xr - xm)) (nat 1 / (xr - xm)) acc) [nat 1]
 
 /-- the list without its r-th entry -/
-def others (nodes : List α) (r : Nat) : List α :=
-  (nodes.zipIdx.filter (fun p => p.2 != r)).map (·.1)
+def others (nodes : List α) (r : Nat) : List α := nodes.eraseIdx r
 
 /-- r-th Lagrange basis polynomial over `nodes` -/
 def basis (nodes : List α) (r : Nat) : List α :=
@@ -64,7 +63,8 @@ structure CollocCoeff (α : Type) where
   C : List (List α)
   /-- `D[r] = ℓ_r(1)` -/
   D : List α
-  /-- `B[j] = ∫₀¹ ℓ_{j+1}`, `j < d` (the weight of node 0 is not part of `B`) -/
+  /-- quadrature weights on the collocation points: `B[j] = ∫₀¹` of the j-th Lagrange basis
+      polynomial through `τ₁ … τ_d` only (so that they sum to one for every scheme and degree) -/
   B : List α
   /-- power-basis coefficients of `ℓ_r`, `r ≤ d` (`poly`) -/
   poly : List (List α)
@@ -77,7 +77,7 @@ def collocCoeff (tau : List α) : CollocCoeff α :=
   let basis := (List.range (d+1)).map (LP.basis nodes)
   { C := basis.map (fun l => tau.map (fun tj => LP.eval (LP.deriv l) tj))
     D := basis.map (fun l => LP.eval l (nat 1))
-    B := (basis.drop 1).map LP.integ01
+    B := (List.range d).map (fun j => LP.integ01 (LP.basis tau j))
     poly := basis
     polyZ := (List.range d).map (LP.basis tau) }
 
